@@ -54,6 +54,24 @@ func TestOwnersRecheckTokensRapid(t *testing.T) {
 			}
 			b.Cleanup(func() { l.Svc.StopAsync(); time.Sleep(20 * time.Second) })
 			go func() { _ = services.StartAndAwaitRunning(ctx, l.Svc) }()
+			// when the owner stopped observing (the basic lifecycler runs, the full one is ACTIVE)
+			t0 := time.Now()
+			var observedUntil, lastSteal time.Time
+			done := func() bool {
+				if l.Full != nil {
+					return l.Full.GetState() == ring.ACTIVE
+				}
+				return l.Svc.State() == services.Running
+			}
+			go func() {
+				for i := 0; i < 2000; i++ {
+					if done() {
+						observedUntil = time.Now()
+						return
+					}
+					time.Sleep(50 * time.Millisecond)
+				}
+			}()
 			for r := 0; r < rounds; r++ {
 				time.Sleep(observe / 2)
 				vx.Wait()
@@ -80,6 +98,7 @@ func TestOwnersRecheckTokensRapid(t *testing.T) {
 						if taken {
 							win.Tokens = append(win.Tokens, tk)
 							stolenTotal++
+							lastSteal = time.Now()
 						} else {
 							keep = append(keep, tk)
 						}
@@ -99,6 +118,11 @@ func TestOwnersRecheckTokensRapid(t *testing.T) {
 			me := d.Ingesters["zzz"]
 			if me.State != ring.ACTIVE || l.State() != ring.ACTIVE {
 				failure = fmt.Sprintf("after its tokens were taken during the observe period the instance is %v (ring) / %v (local), not ACTIVE", me.State, l.State())
+				return
+			}
+			// replacement tokens are observed too: after a loss the owner keeps observing for a whole period
+			if !lastSteal.IsZero() && !observedUntil.IsZero() && observedUntil.Before(lastSteal.Add(observe-100*time.Millisecond)) {
+				failure = fmt.Sprintf("tokens were taken away at t=%v, the owner stopped observing at t=%v: the replacement tokens were not observed for a whole period (%v)", lastSteal.Sub(t0), observedUntil.Sub(t0), observe)
 				return
 			}
 			if len(me.Tokens) != n {
